@@ -18,8 +18,31 @@ pub fn e_val(e: &Value) -> f64 {
     }
 }
 
+/// the documented tuples of the presets are bound to the library's constructors: a parameter tuple
+/// equal to a preset's documented tuple is built with the constructor of that name
 pub fn params(par: &Value) -> RegretParams {
-    RegretParams::new(e_val(&par["a"]), e_val(&par["b"]), e_val(&par["g"]), e_val(&par["w"]))
+    if *par == preset("vanilla") {
+        RegretParams::vanilla()
+    } else if *par == preset("lcfr") {
+        RegretParams::lcfr()
+    } else if *par == preset("cfr_plus") {
+        RegretParams::cfr_plus()
+    } else if *par == preset("dcfr") {
+        RegretParams::dcfr()
+    } else if *par == preset("dcfr_prune") {
+        RegretParams::dcfr_prune()
+    } else {
+        RegretParams::new(e_val(&par["a"]), e_val(&par["b"]), e_val(&par["g"]), e_val(&par["w"]))
+    }
+}
+
+/// `None` (omitted parameters) is documented to mean dcfr: used for every other dcfr case
+pub fn params_opt(par: &Value, id: i64) -> Option<RegretParams> {
+    if *par == preset("dcfr") && id % 2 == 0 {
+        None
+    } else {
+        Some(params(par))
+    }
 }
 
 pub fn method(name: &str) -> SolveMethod {
@@ -317,7 +340,7 @@ fn run_step(t: &Tree, case: &Value, threads: usize) -> Result<StepRun, String> {
         verif::set_first_it(it);
         verif::set_draw_table(Some(draw_table(&[case["draws"].clone()], meth, &t2, &dump)));
         verif::set_draw_seed(Some(12345));
-        let res = game.solve(method(meth), it, 0.0, threads, Some(params(&case["par"])));
+        let res = game.solve(method(meth), it, 0.0, threads, params_opt(&case["par"], case["id"].as_i64().unwrap_or(1)));
         let ext = verif::take_extract();
         verif::reset();
         let (strat, bound) = res.map_err(|e| format!("solve: {e:?}"))?;
@@ -492,7 +515,7 @@ pub fn solve_pinned(t: &Tree, meth: &str, par: Option<&Value>, budget: u64, max_
             verif::set_draw_table(Some(draw_table(&draws, &meth, &t2, &dump)));
         }
         verif::set_draw_seed(Some(seed));
-        let res = game.solve(method(&meth), budget, max_reg, threads, par.as_ref().map(params));
+        let res = game.solve(method(&meth), budget, max_reg, threads, par.as_ref().and_then(|p| params_opt(p, budget as i64 + threads as i64)));
         verif::reset();
         let (strat, bound) = res.map_err(|e| format!("solve: {e:?}"))?;
         let info = strat.get_info();
